@@ -374,7 +374,7 @@ func c07CheckDocSelection(texts []string) *Violation {
 // expression Go cannot compile: such a rule never matches, but its priority is
 // defined by its modifiers like any other rule's.
 func c07WithBadRegex(t *rapid.T, rs []string) []string {
-	if !chance(t, "uncompilable-pattern", 4) {
+	if !chance(t, "uncompilable-pattern-or-extra-flags", 3) {
 		return rs
 	}
 	out := append([]string{}, rs...)
@@ -383,6 +383,18 @@ func c07WithBadRegex(t *rapid.T, rs []string) []string {
 		seen[s] = true
 	}
 	for i, s := range out {
+		if !strings.HasPrefix(s, "@@") && chance(t, "empty-or-mp4", 6) {
+			// two more flag modifiers that blocking rules may carry
+			f := pick(t, "flag", []string{"empty", "mp4"})
+			n := s + "," + f
+			if !strings.Contains(s, "$") {
+				n = s + "$" + f
+			}
+			if !seen[n] {
+				seen[n] = true
+				out[i], s = n, n
+			}
+		}
 		if chance(t, "bad-regex-here", 2) {
 			if n := strings.Replace(s, "||x.com^", "/x[com/", 1); !seen[n] {
 				seen[n] = true
